@@ -182,7 +182,7 @@ class Models:
         R(r"^core::iter::traits::iterator::Iterator::map$", lambda ci: ("iter", "map", ci.args[0], ci.args[1]), "Iterator::map applies f to each item")
         R(r"^core::iter::sources::once::once$", lambda ci: ("iter", "once", ci.args[0]), "iter::once yields exactly one item")
         R(r"^core::iter::traits::iterator::Iterator::collect$", lambda ci: ("app", "collect", (ci.args[0],)), "Iterator::collect::<Vec<_>> gathers all items in order")
-        R(r"^core::iter::traits::iterator::Iterator::sum$", lambda ci: ("app", "sum:" + ci.dest["ty"], (ci.args[0],)), "Iterator::sum adds all items in the result type (overflow: A4)")
+        R(r"^core::iter::traits::iterator::Iterator::sum$", m_sum, "Iterator::sum adds all items in the result type (overflow panics in debug builds: A4)")
         R(r"as core::iter::traits::iterator::Iterator>::fold$|^core::iter::traits::iterator::Iterator::fold$", lambda ci: ("app", "fold", (ci.args[0], ci.args[1], ci.args[2])), "Iterator::fold(init, f)")
         R(r"as core::iter::traits::collect::IntoIterator>::into_iter$|^core::iter::traits::collect::IntoIterator::into_iter$", m_into_iter, "IntoIterator for iterators is identity; for &Vec / &mut Vec it is slice iteration")
         R(r"as core::iter::traits::iterator::Iterator>::next$|^core::iter::traits::iterator::Iterator::next$", m_iter_next, "Iterator::next: Some(item) or None")
@@ -251,6 +251,9 @@ def m_le(ci):
         return TRUE if ci.ev.log_on else FALSE
     if a[0] == "int" and b[0] == "int":
         return TRUE if a[1] <= b[1] else FALSE
+    if a[0] == "adt" and b[0] == "adt" and not a[4] and not b[4] and a[1].startswith("log::") and b[1].startswith("log::"):
+        # log: impl PartialOrd<LevelFilter> for Level compares the discriminants as usize
+        return TRUE if ci.ev.discr_of(a[1], a[2]) <= ci.ev.discr_of(b[1], b[2]) else FALSE
     return ("app", "Le", (a, b))
 
 
@@ -517,6 +520,73 @@ def m_iter_next(ci):
     d = ("app", "has_next", (it, mk_int(n, "usize")))
     ci.st.aux["next_count"] = n + 1
     return ("fork", [([(d, 1)], some(ev, item)), ([(d, 0)], none(ev))])
+
+
+def concrete_items(ci, it):
+    """Items of an iterator over constant data, else None."""
+    if it[0] == "iter" and it[1] == "slice":
+        v = it[2]
+        if v[0] == "bytes":
+            return [("ref", ("val", mk_int(b, "u8"), ()), False) for b in v[1]]
+        return None
+    if it[0] == "iter" and it[1] == "map":
+        base = concrete_items(ci, it[2])
+        if base is None:
+            return None
+        out = []
+        for x in base:
+            r = apply_closure(ci, it[3], [x])
+            if r is None:
+                return None
+            out.append(r)
+        return out
+    return None
+
+
+def apply_closure(ci, f, args):
+    ev = ci.ev
+    from mireval import Evaluator
+    if f[0] == "closure":
+        fn = ev.prog.fns.get(f[1])
+        argv = [f] + list(args)
+    elif f[0] == "fn":
+        fj = ev.fnrefs[f[1]]
+        fn = ev.prog.fns.get((fj.get("resolved") or fj)["path"])
+        argv = list(args)
+    else:
+        return None
+    if fn is None:
+        return None
+    sub = Evaluator(ev.prog, ev.models, ev.log_on, {}, ev.no_inline)
+    sub.fnrefs = ev.fnrefs
+    st2 = ci.st.fork()
+    st2.stack = []
+    st2.trace = ()
+    # closures take their environment by reference for Fn/FnMut
+    body = fn["body"]
+    if f[0] == "closure" and body["locals"][1]["ty"]["k"] == "ref":
+        argv[0] = ("ref", ("val", f, ()), False)
+    paths = [p for p in sub.run_body(fn, body, argv, st=st2) if p.kind == "return"]
+    if len(paths) != 1:
+        return None
+    return sub.detach(paths[0].state, paths[0].value)
+
+
+def m_sum(ci):
+    ty = ci.dest["ty"]
+    items = concrete_items(ci, ci.args[0])
+    if items is not None:
+        tot = 0
+        for x in items:
+            while x[0] == "ref":
+                x = ci.ev.load(ci.st, x[1])
+            if x[0] != "int":
+                return ("app", "sum:" + ty, (ci.args[0],))
+            tot += x[1]
+        if wrap(tot, ty) != tot:
+            return ("panic!", "attempt to add with overflow in Iterator::sum::<%s>" % ty)
+        return mk_int(tot, ty)
+    return ("app", "sum:" + ty, (ci.args[0],))
 
 
 def m_wrapping(ci):
